@@ -434,7 +434,8 @@ func (m *monC11) compare(w *World, ctx sdk.Context, sender, receiver, kinds stri
 
 type monC12 struct{ BaseMonitor }
 
-func (m *monC12) Name() string { return "C12" }
+func (m *monC12) Name() string  { return "C12" }
+func (m *monC12) Init(w *World) { w.armedShadow = w.armedShadow || w.PropOverride == "C12" }
 
 const panicCode = 111222
 
